@@ -12,7 +12,7 @@ use refimpl as r;
 use refimpl::{Mode, MODES};
 use serde_json::json;
 
-const RULE: &str = "for honest keys and signed (M, ctx, mode): (1) every other split i != |ctx|, i <= 255, of the concatenation ctx||M into (ctx', M') must be rejected in the same mode; (1b) every single-byte change of the context (all positions), the context truncated/extended by one byte, message bytes changed/extended/truncated must be rejected; (2) cross-mode mimicry, including every split of ctx||OID||PH(M) under pure verify and pure signatures over splits shifted by up to two bytes under hash_verify: the pure signature of OID||PH(M) (also with domain and length bytes prepended) must be rejected by hash_verify(M, PH), and a pre-hash signature must be rejected by pure verify of OID||PH(M) and of the literal formatted bytes; (4) for messages just past 4 KiB .. 1 MiB: a changed byte at the start, middle, end and on both sides of every power-of-two offset, truncation to every power of two, by one byte, and extensions must be rejected; (3) every other pre-hash function (incl. SHA-256 vs SHAKE128 which share the digest length) and the other mode must reject; the original must verify. The reference is run on every alternative as well (it must also say false). Non-trivial = distinct alternative interpretations evaluated against a signature that verifies under its own interpretation.";
+const RULE: &str = "for honest keys and signed (M, ctx, mode): (1) every other split i != |ctx|, i <= 255, of the concatenation ctx||M into (ctx', M') must be rejected in the same mode; (1b) every single-byte change of the context (all positions), the context truncated/extended by one byte, message bytes changed/extended/truncated must be rejected; (2) cross-mode mimicry, including every split of ctx||OID||PH(M) under pure verify and pure signatures over splits shifted by up to two bytes under hash_verify: the pure signature of OID||PH(M) (also with domain and length bytes prepended) must be rejected by hash_verify(M, PH), and a pre-hash signature must be rejected by pure verify of OID||PH(M) and of the literal formatted bytes; (4) for messages just past 4 KiB .. 1 MiB: a changed byte at the start, middle, end and on both sides of every power-of-two offset, truncation to every power of two, by one byte, and extensions must be rejected; (5) on 64-bit hosts a pure signature over 0^15 must not verify for 0^(2^32+15) (thorough: and vice versa); (3) every other pre-hash function (incl. SHA-256 vs SHAKE128 which share the digest length) and the other mode must reject; the original must verify. The reference is run on every alternative as well (it must also say false). Non-trivial = distinct alternative interpretations evaluated against a signature that verifies under its own interpretation.";
 
 pub fn run(ctx: &Ctx) -> StageOut {
     let mut acc = Acc::new();
@@ -189,6 +189,46 @@ fn run_set<S: PS>(ctx: &Ctx) -> Acc {
                 alt::<S>(&mut acc, &pk, &pk_b, "long-msg-extended", &m2, &cx, mode, &sig, true);
                 m2.extend_from_slice(&g.bytes(5000));
                 alt::<S>(&mut acc, &pk, &pk_b, "long-msg-extended", &m2, &cx, mode, &sig, false);
+            }
+        }
+        // ---- (5) messages beyond 2^32 bytes (pure mode, 64-bit hosts): a length or offset kept in 32 bits
+        // makes (M0) and (M0 || 2^32 more bytes) the same message. One set per run in quick (4 GiB are
+        // hashed once per probe), release build only; every set and both directions in thorough.
+        let my_turn = (ctx.seed % 3) as usize == [44u32, 65, 87].iter().position(|&s| s == p.set).unwrap_or(0);
+        if ji == 0 && usize::BITS >= 64 && (ctx.thorough() || (my_turn && !ctx.checked_build())) {
+            let n_long = (1usize << 32) + 15;
+            match ZeroBuf::new(n_long + 1) {
+                None => acc.inconclusive(format!("{}: cannot reserve a 4 GiB zero buffer for the huge-message probe", p.name)),
+                Some(z) => {
+                    let rnd = g.arr32();
+                    let short = z.get(15);
+                    if let Ok((Ok(sig), _)) = sign_replay::<S>(&sk, short, &[], Mode::Pure, &rnd) {
+                        acc.eval();
+                        let replay = json!({"kind":"c06-huge","set":S::SET,"what":"signature over 0^15 verified against 0^(2^32+15)"});
+                        match guarded(|| S::verify(&pk, z.get(n_long), &sig, &[], Mode::Pure)) {
+                            Ok(false) => {
+                                acc.count("huge_message_alias_rejected", 1);
+                                acc.nontrivial(digest64(&[&[S::SET as u8], b"huge-msg-alias"]));
+                            }
+                            Ok(true) => acc.violation(&format!("C06|alt-accepted|{}|msg-extended-by-2^32|pure", p.name), "a signature over a 15-byte message verifies for that message followed by 2^32 more bytes".into(), replay),
+                            Err(pi) => panic_violation(&mut acc, "C06", "verify", "huge-message", &pi, replay),
+                        }
+                    }
+                    if ctx.thorough() {
+                        if let Ok((Ok(sig), _)) = sign_replay::<S>(&sk, z.get(n_long), &[], Mode::Pure, &rnd) {
+                            acc.eval();
+                            let replay = json!({"kind":"c06-huge","set":S::SET,"what":"signature over 0^(2^32+15) verified against 0^15"});
+                            match guarded(|| S::verify(&pk, short, &sig, &[], Mode::Pure)) {
+                                Ok(false) => {
+                                    acc.count("huge_message_alias_rejected", 1);
+                                    acc.nontrivial(digest64(&[&[S::SET as u8], b"huge-msg-alias-2"]));
+                                }
+                                Ok(true) => acc.violation(&format!("C06|alt-accepted|{}|msg-truncated-by-2^32|pure", p.name), "a signature over a 2^32+15-byte message verifies for its first 15 bytes".into(), replay),
+                                Err(pi) => panic_violation(&mut acc, "C06", "verify", "huge-message", &pi, replay),
+                            }
+                        }
+                    }
+                }
             }
         }
         // ---- (2) cross-mode mimicry ----------------------------------------------------------
